@@ -312,6 +312,7 @@ def run_real(clock, kind, obs, via, warm, mode):
         s.wait_quiescent()
         try:
             same_obj = sim.model.get_output_statistic("k") is st and \
+                st.key == "k" and m.st2.key == "k2" and \
                 m.get_output_statistic("k2") is m.st2 and \
                 m_b.get_output_statistic("k") is m_b.st and \
                 m_b.st is not st
